@@ -47,4 +47,14 @@ def sched(ctx, prog):
 
 sched.rule_id = "C16.PDOM-sched"
 
-RULES = [rewire, weak_prev_nodes, link_callback, sched]
+def pdom_notify(ctx, prog):
+    R = "C16.PDOM-notify"
+    ctx.rule(R, "a changed per-key node delivers child_changed to every live parent (queued or not): the result node of "
+                "the per-key operators writes the key's new value from that notification")
+    from .shared import every_parent_notified
+    every_parent_notified(ctx, prog, R)
+
+
+pdom_notify.rule_id = "C16.PDOM-notify"
+
+RULES = [rewire, weak_prev_nodes, link_callback, sched, pdom_notify]
